@@ -20,6 +20,12 @@ import PromModel.Prelude.Line
     `openq`                             tsdb.OpenBlock + ChunkQuerier over everything
     `dmgi <pos> <kind> ser <k>|all`     one byte of the index altered, reader re-opened
     `dmgc <seg> <pos> <kind> <ref|->`   one byte of a segment file altered, reader re-opened
+  and, for blocks written by the block writer and by compaction (T3, samples instead of raw chunks):
+    `bw`                                tsdb.NewBlockWriter                          → `ok`
+    `app <n=v,…> <t> <value bits hex>`  Appender.Append + Commit                     → `ok` | `err`
+    `flush`                             BlockWriter.Flush                            → `ok` | `err-empty`
+    `q <n>`                             OpenBlock(n-th block) + querier, all samples → `ok <lbls>|<t>:<bits>,… …`
+    `compact <n,m,…>`                   LeveledCompactor.Compact into a new block    → `ok`
 -/
 namespace Prom.BlockSuite
 open Prom.Enc Prom.BlockIndex
@@ -111,6 +117,47 @@ def indexOf? (syms : List Bytes) (s : Bytes) : Option Nat :=
     | x :: xs, i => if x = s then some i else go xs (i + 1)
   go syms 0
 
+
+/-! ### blocks written from samples (block writer, compaction) -/
+
+abbrev Smp := Int × Nat
+abbrev SerS := List (Bytes × Bytes) × List Smp
+
+/-- sorted insert by timestamp; an existing sample at the same timestamp is kept -/
+def insSample (t : Int) (v : Nat) : List Smp → List Smp
+  | [] => [(t, v)]
+  | (t', v') :: rest =>
+    if t < t' then (t, v) :: (t', v') :: rest
+    else if t = t' then (t', v') :: rest
+    else (t', v') :: insSample t v rest
+
+def addSample (ss : List SerS) (ls : List (Bytes × Bytes)) (t : Int) (v : Nat) : List SerS :=
+  match ss with
+  | [] => [(ls, [(t, v)])]
+  | (ls', sm) :: rest => if ls' = ls then (ls', insSample t v sm) :: rest else (ls', sm) :: addSample rest ls t v
+
+def insSeries (x : SerS) : List SerS → List SerS
+  | [] => [x]
+  | y :: ys => if cmpStrs (flat x.1) (flat y.1) < 0 then x :: y :: ys else y :: insSeries x ys
+
+def renderQ (ss : List SerS) : String :=
+  let sorted := ss.foldr insSeries []
+  ("ok " ++ " ".intercalate (sorted.map fun s =>
+    lblStr s.1 ++ "|" ++ ",".intercalate (s.2.map fun p => s!"{p.1}:{hexOfNat p.2 16}"))).trimAsciiEnd.toString
+
+def mergeBlocks (a b : List SerS) : List SerS :=
+  b.foldl (fun acc s => s.2.foldl (fun acc p => addSample acc s.1 p.1 p.2) acc) a
+
+def parseApp? (ls t v : String) : Option (List (Bytes × Bytes) × Int × Nat) := do
+  let ls ← parseLbls? ls
+  let t ← t.toInt?
+  let v ← natOfHex? v
+  pure (ls, t, v)
+
+def parseBlockList? (s : String) (n : Nat) : Option (List Nat) := do
+  let ks ← (s.splitOn ",").mapM String.toNat?
+  if ks.all fun k => 1 ≤ k ∧ k ≤ n then pure ks else none
+
 structure St where
   cw : Option CW := none
   written : List (Nat × Chunk) := []          -- ref ↦ chunk, in write order
@@ -126,6 +173,8 @@ structure St where
   rd : Option Reader := none
   origSer : List String := []
   origAll : List String := []
+  bw : Option (List SerS) := none
+  blocks : List (List SerS) := []
 
 def readEverything (r : Reader) : List String :=
   let names := r.labelNames
@@ -321,6 +370,41 @@ def step (st : St) (line : String) : St × String :=
           let (d2, e2) := if all.length ≠ st.origAll.length then (1, 0) else countDiff all st.origAll none
           (st, s!"{out} rest={d1 + d2} errs={e1 + e2}")
     | _, _ => (st, "bad-op")
+  | ["bw"] =>
+    match st.bw with
+    | none => ({ st with bw := some [] }, "ok")
+    | some _ => (st, "bad-op")
+  | ["app", ls, t, v] =>
+    match st.bw, parseApp? ls t v with
+    | some ss, some (ls, t, v) =>
+      -- memSeries.appendable: later than the last sample, or an exact duplicate of it
+      match (ss.find? (·.1 = ls)).bind (·.2.getLast?) with
+      | none => ({ st with bw := some (addSample ss ls t v) }, "ok")
+      | some (lt, lv) =>
+        if t > lt then ({ st with bw := some (addSample ss ls t v) }, "ok")
+        else if t = lt ∧ v = lv then (st, "ok")
+        else (st, "err")
+    | _, _ => (st, "bad-op")
+  | ["flush"] =>
+    match st.bw with
+    | some ss =>
+      if ss.isEmpty then ({ st with bw := none }, "err-empty")
+      else ({ st with bw := none, blocks := st.blocks ++ [ss] }, "ok")
+    | none => (st, "bad-op")
+  | ["q", n] =>
+    match n.toNat? with
+    | some n =>
+      if n = 0 then (st, "bad-op") else
+      match st.blocks[n - 1]? with
+      | some b => (st, renderQ b)
+      | none => (st, "bad-op")
+    | none => (st, "bad-op")
+  | ["compact", ns] =>
+    match parseBlockList? ns st.blocks.length with
+    | some ks =>
+      let merged := ks.foldl (fun acc k => mergeBlocks acc (st.blocks[k - 1]?.getD [])) []
+      ({ st with blocks := st.blocks ++ [merged] }, "ok")
+    | none => (st, "bad-op")
   | ["openq"] =>
     match st.idx, st.segs, st.rd with
     | some f, some segs, some r =>
@@ -365,6 +449,8 @@ structure JSt where
   ids : Option (List Nat) := none
   rser : List (Nat × String) := []       -- k ↦ undamaged `Series` output (without the id)
   rc : List (Nat × String) := []         -- ref ↦ undamaged chunk read
+  bw : List SerS := []                   -- samples accepted since `bw`
+  blocks : List (List SerS) := []
 
 def sortedUniq (xs : List Bytes) : List Bytes := xs.foldr insertBytes []
 
@@ -423,6 +509,8 @@ def judgeStep (js : JSt) (k : Nat) (op out : String) : Except String JSt :=
     match parseLbls? ls, parseChks? cs with
     | some ls, some cs => if out = "ok" then .ok { js with series := js.series ++ [(ls, cs)] } else .ok js
     | _, _ => .ok js
+  | ["iclose"] =>
+    if out.startsWith "ok " then .ok js else .error s!"violation index-unreadable op={k} got={out.take 40}"
   | ["rsyms"] =>
     if out ≠ "ok " ++ hexList js.syms then .error s!"violation readback-symbols op={k}" else .ok js
   | ["rser", i] =>
@@ -469,6 +557,28 @@ def judgeStep (js : JSt) (k : Nat) (op out : String) : Except String JSt :=
   | ["rln"] =>
     let want := sortedUniq (js.series.flatMap fun s => s.1.map (·.1))
     if out ≠ "ok " ++ hexList want then .error s!"violation readback-label-names op={k} got={out.take 60}" else .ok js
+  | ["bw"] => .ok { js with bw := [] }
+  | ["app", ls, t, v] =>
+    match parseApp? ls t v with
+    | some (ls, t, v) => if out = "ok" then .ok { js with bw := addSample js.bw ls t v } else .ok js
+    | none => .ok js
+  | ["flush"] =>
+    if out = "ok" then .ok { js with blocks := js.blocks ++ [js.bw], bw := [] }
+    else if js.bw.isEmpty then .ok js
+    else .error s!"violation flush-failed op={k} got={out.take 40}"
+  | ["q", n] =>
+    match n.toNat? with
+    | some n =>
+      match js.blocks[n - 1]? with
+      | some b => if out ≠ renderQ b then .error s!"violation block-query op={k} block={n} got={out.take 100}" else .ok js
+      | none => .ok js
+    | none => .ok js
+  | ["compact", ns] =>
+    match parseBlockList? ns js.blocks.length with
+    | some ks =>
+      if out ≠ "ok" then .error s!"violation compact-failed op={k} got={out.take 40}" else
+      .ok { js with blocks := js.blocks ++ [ks.foldl (fun acc k => mergeBlocks acc (js.blocks[k - 1]?.getD [])) []] }
+    | none => .ok js
   | ["openq"] =>
     match expectedQuery js with
     | some want => if out ≠ want then .error s!"violation reopen-query op={k} got={out.take 80}" else .ok js
